@@ -239,12 +239,40 @@ def stripDecl : Decl → Decl
 /-- the package as `new` sees it; model and specification of `new` are invariant under it (`run_new_strip`, `spec_new_strip`) -/
 def stripNew (pkg : Pkg) : Pkg := pkg.map (fun f => { f with decls := f.decls.map stripDecl })
 
+/-- a function-local type declaration the walks of sub-command `cmd` (which, except for `new`, DO enter function bodies) pass by
+    without any effect: `rest` only ever looks at interface types, `map` at struct types, `enum` at types with a basic underlying
+    type and at aliases (and, for a name no TypeSpec carries, at the predeclared non-integer types) -/
+def harmless (cmd : Cmd) (t : TSpec) : Bool :=
+  match cmd with
+  | .new => true
+  | .rest => (match t.shape with | .iface _ => false | _ => true)
+  | .map => t.shape != .struct
+  | .enum => t.under.isNone && !t.alias && !predeclNonInt t.name
+
+def localsHarmless (cmd : Cmd) : List Decl → Bool
+  | [] => true
+  | .func _ ls :: r => ls.all (harmless cmd) && localsHarmless cmd r
+  | _ :: r => localsHarmless cmd r
+
+def stripLocDecl : Decl → Decl
+  | .func tps _ => .func tps []
+  | d => d
+
+/-- the package without its function-local type declarations (constants stay); the model of every sub-command is invariant
+    under it when the locals are `harmless` (`run_stripLoc`), the specification always is (`spec_stripLoc`) -/
+def stripLoc (pkg : Pkg) : Pkg := pkg.map (fun f => { f with decls := f.decls.map stripLocDecl })
+
 def region (cmd : Cmd) (pkg : Pkg) (fl : Flags) : Region :=
   if validPkg pkg then regionValid cmd pkg fl
   else if pkg.all (fun f => endsGo f.name) && namedNotInFile pkg fl then .WF     -- whatever else the package contains
   else if cmd == .new && validPkgL pkg then
     -- `new` passes function-local types and constants by: the package without them is valid and decides the region
     regionValid .new (stripNew pkg) fl
+  else if pkg.all (fun f => localsHarmless cmd f.decls) && validPkg (stripLoc pkg) then
+    -- function-local types of a kind the sub-command's walk has no eye for (a local struct called like the RestClient interface,
+    -- a local non-struct called like the mapped struct, a local struct called like the enum): the package without them is valid
+    -- and decides the region
+    regionValid cmd (stripLoc pkg) fl
   else if validPkgL pkg then
     -- only function-local types / constants of predeclared types keep the package out of `validPkg`: where the model
     -- (= the code) then misses the specification it is this finding, elsewhere the input stays advisory
